@@ -92,6 +92,7 @@ impl Source for DirSrc {
                     1 => f(DirEntry::File("d.q", "x")),
                     2 => f(DirEntry::File("d.p", "y")),
                     3 => f(DirEntry::File("d.p", "")),
+                    5 => f(DirEntry::Directory("d.t")),
                     _ => f(DirEntry::Directory("d.s")),
                 }
                 i += 1;
@@ -107,8 +108,12 @@ impl Source for DirSrc {
                 i += 1;
             }
             Ok(())
+        } else if id == "d.t" {
+            // a second sub-directory, always readable, holding one matching file
+            f(DirEntry::File("d.t.r", "x"));
+            Ok(())
         } else {
-            Err(io::ErrorKind::NotFound.into())
+            Err(io::ErrorKind::PermissionDenied.into())
         }
     }
     fn exists(&self, _e: DirEntry) -> bool {
@@ -379,9 +384,54 @@ instances! {
     c11_k3_rec_child_dup => rec_case::<TXY>(&[4, 1], &[0, 1], true);
     c11_k3_rec_child_other_ext => rec_case::<TX>(&[4, 1], &[1], true);
 }
-// not registered: CBMC did not finish this instance in 50 min (the skipped child's Error is dropped inside the closure)
-instances! {
-    c11_k3e_rec_child_unreadable => rec_case::<TX>(&[0, 4, 1], &[0], false);
+/// an unreadable sub-directory is skipped without hiding the siblings that come after it.
+/// Unwinding bound 5 (not 8): the skipped child's `Error` is dropped inside the closure and its drop glue is recursive
+/// through `dyn Error` (with 8 CBMC did not finish in 50 min).
+fn rec_unreadable_then_readable() {
+    let c = dc(&[4, 5, 0], &[0], false); // d.s (unreadable), d.t (readable: d.t.r), file d.p
+    match c._load::<RecursiveDirectory<TX>>("d") {
+        Ok(h) => {
+            let g = h.read();
+            check_ids(g.ids(), true, false, &["d.t.r"]);
+        }
+        Err(e) => {
+            std::mem::forget(e);
+            assert!(false, "C11 an unreadable sub-directory is skipped; the directory itself loads");
+        }
+    }
+    std::mem::forget(c);
+}
+#[cfg_attr(kani, kani::proof)]
+#[cfg_attr(kani, kani::unwind(5))]
+#[cfg_attr(kani, kani::stub(crate::error::ErrorKind::or, crate::amv::common::or_contract))]
+pub(crate) fn c11_k3e_rec_unreadable_then_readable() {
+    rec_unreadable_then_readable()
+}
+/// smallest shape of the same obligation (two sub-directories, no own file) with unwinding bound 3
+fn rec_unreadable_then_readable_min() {
+    let c = dc(&[4, 5], &[], false);
+    match c._load::<RecursiveDirectory<TX>>("d") {
+        Ok(h) => {
+            let g = h.read();
+            let mut it = g.ids();
+            match it.next() {
+                Some(s) => assert!(&**s == "d.t.r", "C11 an unreadable sub-directory is skipped without hiding the siblings that come after it"),
+                None => assert!(false, "C11 an unreadable sub-directory is skipped without hiding the siblings that come after it"),
+            }
+            assert!(it.next().is_none());
+        }
+        Err(e) => {
+            std::mem::forget(e);
+            assert!(false, "C11 an unreadable sub-directory is skipped; the directory itself loads");
+        }
+    }
+    std::mem::forget(c);
+}
+#[cfg_attr(kani, kani::proof)]
+#[cfg_attr(kani, kani::unwind(4))]
+#[cfg_attr(kani, kani::stub(crate::error::ErrorKind::or, crate::amv::common::or_contract))]
+pub(crate) fn c11_k3e_rec_unreadable_then_readable_min() {
+    rec_unreadable_then_readable_min()
 }
 
 /// C11.K4 — iter loads precisely the listed ids; iter_cached yields precisely the cached ones
